@@ -334,6 +334,19 @@ def schedule_variants(profile, n, seed, singles, pairs, tag, full_pairs=0):
                 a, b = rnd.choice(pts), rnd.choice(pts)
                 sets.append([a, b])
                 sets.append([a, b, rnd.choice(pts)])
+            if sc.get('qdep_triples'):
+                # a query racing a failing build_file on the same path (D43): the query thread stops at k1, the
+                # builder runs to k2 (its file is on disk), the query thread goes on to k3, the builder finishes
+                # (its directories are virtually removed), the query thread finishes - every such triple, up to a cap
+                brs = [x for x in sc['steps'][par_steps[pi]]['root'] if x.get('s') == 'par'][0]['branches']
+                qi = [i for i, b in enumerate(brs) if b.get('s') == 'q'][0]
+                bi = 1 - qi
+                trip = [[(qi, k1), (bi, k2), (qi, k3)]
+                        for k1 in range(1, info['yields'][qi] + 1)
+                        for k3 in range(k1 + 1, info['yields'][qi] + 1)
+                        for k2 in range(1, info['yields'][bi] + 1)]
+                cap = sc['qdep_triples']
+                sets += trip if len(trip) <= cap else rnd.sample(trip, cap)
             if sc['steps'][par_steps[pi]].get('straggler'):
                 # preemptions of the owner (thread 0) only, counted from the hand-off on
                 o_pts = [p for p in pts if p[0] == 0]
